@@ -32,7 +32,7 @@ ASSUMPTIONS = [
     "conformance pass",
 ]
 
-DESCS = ["scalar", "two", "array", "constdim", "attrs", "xobj"]
+DESCS = ["scalar", "two", "array", "constdim", "attrs", "xobj", "falsy"]
 
 
 def cases(tier, seed):
@@ -75,12 +75,15 @@ def cases(tier, seed):
                 yield {"desc": desc, "farmer": far, "kind": kind, "n": n,
                        "mode": mode, "req": req, "shuffle": shuffle,
                        "reload": rl, "policy": pol, "late": True}
-            if desc == "attrs" and far != "sampler" and pol in (None, (None, None)):
+            if desc in ("attrs", "falsy") and far != "sampler" and pol in (
+                    None, (None, None)):
                 # an extra constant given for this run only (overrides the
                 # runner's stored constant)
                 yield {"desc": desc, "farmer": far, "kind": kind, "n": n,
                        "mode": mode, "req": req, "shuffle": shuffle,
-                       "reload": rl, "policy": pol, "sowconst": {"k": 5}}
+                       "reload": rl, "policy": pol,
+                       # (an override by a falsy value counts as well)
+                       "sowconst": {"k": 5 if (n + rl) % 2 else 0}}
 
 
 def worker_init():
@@ -119,6 +122,11 @@ def describe(desc, argnames):
         return "num", dict(var_names="out", constants={"k": 7},
                            resources={"r": 9},
                            attrs={"note": "hello", "n": 3}), ["k", "r"]
+    if desc == "falsy":
+        # constants, resources and attributes that are falsy values
+        return "num", dict(var_names="out", constants={"k": 0, "flag": False},
+                           resources={"r": 0},
+                           attrs={"note": "", "n": 0}), ["flag", "k", "r"]
     if desc == "xobj":
         return "dataset", dict(var_names=None), []
     raise ValueError(desc)
